@@ -1300,3 +1300,122 @@ def loop_alias_attrs(func_node, name):
         else:
             return None
     return out
+
+
+_INPLACE = {'append', 'extend', 'insert', 'remove', 'pop', 'clear', 'sort',
+            'reverse', 'update', 'add', 'discard', 'setdefault', 'popitem',
+            'appendleft', 'extendleft', 'popleft'}
+
+
+def shared_class_state(e, module_prefixes):
+    """Class-level attributes bound to a mutable object (`x = []`, `{}`,
+    `set()`, `deque()` ...) that some method of the class (or of a subclass)
+    changes IN PLACE through `self.x` although no `__init__` in the MRO gives
+    the instance its own: one object shared by every instance.
+    Yields (class qname, attribute, class-level statement, FuncInfo of the
+    mutating method, mutating node)."""
+    import ast as _ast
+    from ..model import walk_own
+
+    def mutable(v):
+        if isinstance(v, (_ast.List, _ast.Dict, _ast.Set, _ast.ListComp,
+                          _ast.DictComp, _ast.SetComp)):
+            return True
+        return isinstance(v, _ast.Call) and \
+            _ast.unparse(v.func).rpartition('.')[2] in (
+                'list', 'dict', 'set', 'bytearray', 'deque', 'OrderedDict',
+                'defaultdict', 'Counter', 'BlockingDeque')
+    for cq, c in sorted(e.p.classes.items()):
+        if not any(c.module.name == p or c.module.name.startswith(p + '.')
+                   for p in module_prefixes):
+            continue
+        for st in c.node.body:
+            if not (isinstance(st, _ast.Assign) and mutable(st.value)):
+                continue
+            for t in st.targets:
+                if not isinstance(t, _ast.Name):
+                    continue
+                attr = t.id
+                # classes that see this attribute: c and its subclasses
+                users = [cq] + [k for k in e.p.subclasses(cq) if k != cq]
+                for uq in users:
+                    # does an __init__ in the MRO of the user rebind it?
+                    own = False
+                    for k in e.p.mro(uq):
+                        kc = e.p.classes.get(k)
+                        init = kc.methods.get('__init__') if kc else None
+                        if init is not None and any(
+                                isinstance(a, (_ast.Assign, _ast.AnnAssign))
+                                and any(isinstance(tt, _ast.Attribute) and
+                                        tt.attr == attr and
+                                        isinstance(tt.value, _ast.Name) and
+                                        tt.value.id == 'self'
+                                        for tt in (a.targets if isinstance(
+                                            a, _ast.Assign) else [a.target]))
+                                for a in walk_own(init.node)):
+                            own = True
+                            break
+                    if own:
+                        continue
+                    uc = e.p.classes.get(uq)
+                    for m in (uc.methods.values() if uc else []):
+                        for x in walk_own(m.node):
+                            hit = None
+                            if isinstance(x, _ast.Call) and \
+                                    isinstance(x.func, _ast.Attribute) and \
+                                    x.func.attr in _INPLACE and \
+                                    isinstance(x.func.value,
+                                               _ast.Attribute) and \
+                                    x.func.value.attr == attr and \
+                                    isinstance(x.func.value.value,
+                                               _ast.Name) and \
+                                    x.func.value.value.id == 'self':
+                                hit = x
+                            tg = []
+                            if isinstance(x, _ast.Assign):
+                                tg = x.targets
+                            elif isinstance(x, _ast.AugAssign):
+                                tg = [x.target]
+                            elif isinstance(x, _ast.Delete):
+                                tg = x.targets
+                            for tt in tg:
+                                b = tt
+                                sub = False
+                                while isinstance(b, _ast.Subscript):
+                                    b, sub = b.value, True
+                                if isinstance(b, _ast.Attribute) and \
+                                        b.attr == attr and \
+                                        isinstance(b.value, _ast.Name) and \
+                                        b.value.id == 'self' and (
+                                            sub or isinstance(
+                                                x, _ast.AugAssign)):
+                                    hit = x
+                            if hit is not None:
+                                yield cq, attr, st, m, hit
+
+
+def shared_state_rule(e, rep, rule, module_prefixes, consequence):
+    n = 0
+    for cq, c in e.p.classes.items():
+        if any(c.module.name == p or c.module.name.startswith(p + '.')
+               for p in module_prefixes):
+            n += 1
+    rep.evaluations += 1
+    seen = set()
+    for cq, attr, st, m, hit in shared_class_state(e, module_prefixes):
+        key = (cq, attr)
+        if key in seen:
+            continue
+        seen.add(key)
+        rep.evaluations += 1
+        rep.bad(rule, m.qname, 'in-place change of class-level `%s.%s`' % (
+            cq.rpartition('.')[2], attr),
+            '`%s` is created once in the class body of %s and no __init__ '
+            'gives an instance its own; %s changes it in place, so every '
+            'instance shares one object: %s' % (
+                attr, cq, m.name, consequence), loc=m.loc(hit))
+    if n < 1:
+        rep.error('anchor vanished: classes under %s' % (module_prefixes,))
+    elif not seen:
+        rep.ok(rule, ', '.join(module_prefixes), 'no instance state lives in '
+               'a class-level mutable', reason='%d classes looked at' % n)
